@@ -79,4 +79,13 @@ def _gh_named(case, res):
 def _rdr_order(case, res):
     """I_rdr of a node with two or more multi-source members depends on the order of the sources."""
     msg = (res.oracle_fail or '')
-    return case.get('cls') == 'PID_RDR' and case.get('ns') == 3 and msg.startswith('permuting the sources')
+    return case.get('cls') == 'PID_RDR' and msg.startswith('permuting the sources')
+
+
+@predicate('gh-constant-sources')
+def _gh_constant(case, res):
+    """PID_GH when every source is constant: its search loop over bounds is empty and `gho` stays unbound."""
+    msg = (res.oracle_fail or '')
+    ns = case.get('ns', 0)
+    const = all(len(set(o[i] for o in case.get('outs', []))) == 1 for i in range(ns))
+    return case.get('cls') == 'PID_GH' and 'UnboundLocalError' in msg and const
